@@ -35,6 +35,9 @@
 (*   F_WAITCLOSE _disconnect waits for wait_closed() even when the writer   *)
 (*           is already closing (FALSE: it does not - not a defect of the  *)
 (*           pinned tree; shows that overlapping resets are exercised)     *)
+(*   F_REOPEN close() forgets the attempt it cancelled (a cancelled task   *)
+(*           finishes on a later loop turn only: an open_socket() right    *)
+(*           after close() would take it for an attempt in flight)         *)
 (*   F_CLOCK the drain reads the clock for every entry (FALSE: once before *)
 (*           the loop - not a defect of the pinned tree; kept to show that *)
 (*           the stall model exercises the expiry clause)                  *)
@@ -48,7 +51,7 @@
 EXTENDS Naturals, Integers, Sequences, FiniteSets, FiniteSetsExt, TLC, TLCExt
 
 CONSTANTS MaxConn, MaxTask, MaxMsg, MaxEnv, H, ConnSubs, MsgSubs, SubSends, QCap,
-          F_ENQ, F_DRAIN, F_ONE, F_CLOSE, F_CAP, F_CLOCK, F_WAITCLOSE, Stalls, Record, Kinds, Policies
+          F_ENQ, F_DRAIN, F_ONE, F_CLOSE, F_CAP, F_CLOCK, F_WAITCLOSE, F_REOPEN, Stalls, Record, Kinds, Policies
 
 C == INSTANCE SocketContract WITH QMAX <- QCap
 
@@ -119,7 +122,11 @@ ScheduleConnect(s, me, delayed) ==
 Cancel(s, t) ==
   LET p  == s.task[t].pc
       c  == s.task[t].arg
-      s1 == [s EXCEPT !.task[t].pc = "done"]
+      \* the task only ENDS when the loop runs it again (CancelledError at its await): until then it
+      \* is "not done" for whoever looks at the handle
+      s1 == IF p \in {"Ksleep", "K2wait", "K3"}
+            THEN [s EXCEPT !.task[t].pc = "Kcan", !.ready = Append(@, <<"t", t>>)]
+            ELSE [s EXCEPT !.task[t].pc = "done"]
   IN IF p = "K2wait"
      THEN R([s1 EXCEPT !.conn[c] = "cancelled"], <<Ev(s, [e |-> "cancelled", t |-> 0, c |-> c - 1])>>)
      ELSE IF p = "K3"
@@ -154,17 +161,26 @@ Seg(s, t) ==
              IN {R(Done(s1, t), <<>>)}
         ELSE {R(Done(s, t), <<>>)}
   [] pc = "C0" ->          \* close()
-        IF ~s.isOpen THEN {R(Done(s, t), <<Ev(s, [e |-> "retclose", t |-> 0])>>)}
+        IF ~s.isOpen
+        THEN IF me.kind = "closeopen"
+             THEN {R(Cont(SetPc(s, t, "open"), t), <<Ev(s, [e |-> "retclose", t |-> 0]), Ev(s, [e |-> "callopen", t |-> 0])>>)}
+             ELSE {R(Done(s, t), <<Ev(s, [e |-> "retclose", t |-> 0])>>)}
         ELSE IF F_CLOSE
         THEN LET s1 == [s EXCEPT !.isOpen = FALSE]
-                 r  == IF s1.connTask # None /\ s1.connTask # t /\ s1.task[s1.connTask].pc # "done"
+                 r0 == IF s1.connTask # None /\ s1.connTask # t /\ s1.task[s1.connTask].pc # "done"
                        THEN Cancel(s1, s1.connTask) ELSE R(s1, <<>>)
+                 r  == IF F_REOPEN /\ s1.connTask # None /\ s1.connTask # t
+                       THEN R([r0.s EXCEPT !.connTask = None], r0.out) ELSE r0
              IN {R(Cont(Push(r.s, t, "C2", "D0"), t), r.out)}
         ELSE {R(Cont(Push(s, t, "C1", "D0"), t), <<>>)}
   [] pc = "C1" ->          \* original code: is_open = False after the disconnect
         {R(Cont(SetPc([s EXCEPT !.isOpen = FALSE], t, "C2"), t), <<>>)}
   [] pc = "C2" ->
-        {R(Done(s, t), <<Ev(s, [e |-> "retclose", t |-> 0])>>)}
+        IF me.kind = "closeopen"     \* one user coroutine: `await s.close(); s.open_socket()` - no turn in between
+        THEN {R(Cont(SetPc(s, t, "open"), t), <<Ev(s, [e |-> "retclose", t |-> 0]), Ev(s, [e |-> "callopen", t |-> 0])>>)}
+        ELSE {R(Done(s, t), <<Ev(s, [e |-> "retclose", t |-> 0])>>)}
+  [] pc = "Kcan" ->        \* the cancelled attempt ends
+        {R(Done(s, t), <<>>)}
   \* ------------------------------------------------------------ _disconnect
   [] pc = "D0" ->
         IF s.writer # None
@@ -388,14 +404,19 @@ NewCall(s, kind, pc, arg) ==
   IN [s1 EXCEPT !.calls = @ + 1, !.task[NT(s1)].cid = s.calls + 1]
 
 CallOpen ==
-  /\ ~S.isOpen /\ NT(S) < MaxTask /\ ~\E t \in Tasks(S) : S.task[t].kind \in {"close", "open"} /\ S.task[t].pc # "done"
+  /\ ~S.isOpen /\ NT(S) < MaxTask /\ ~\E t \in Tasks(S) : S.task[t].kind \in {"close", "open", "closeopen"} /\ S.task[t].pc # "done"
   /\ EnvStep(NewCall(S, "open", "open", 0), <<Ev(S, [e |-> "callopen", t |-> 0])>>,
              [op |-> "call", method |-> "open_socket"])
 
 CallClose ==
-  /\ S.isOpen /\ NT(S) < MaxTask /\ ~\E t \in Tasks(S) : S.task[t].kind \in {"close", "open"} /\ S.task[t].pc # "done"
+  /\ S.isOpen /\ NT(S) < MaxTask /\ ~\E t \in Tasks(S) : S.task[t].kind \in {"close", "open", "closeopen"} /\ S.task[t].pc # "done"
   /\ EnvStep(NewCall(S, "close", "C0", 0), <<Ev(S, [e |-> "callclose", t |-> 0])>>,
              [op |-> "call", method |-> "close"])
+
+CallCloseOpen ==
+  /\ S.isOpen /\ NT(S) < MaxTask /\ ~\E t \in Tasks(S) : S.task[t].kind \in {"close", "open", "closeopen"} /\ S.task[t].pc # "done"
+  /\ EnvStep(NewCall(S, "closeopen", "C0", 0), <<Ev(S, [e |-> "callclose", t |-> 0])>>,
+             [op |-> "call_seq", methods |-> <<"close", "open_socket">>])
 
 CallSend(kind, pol) ==
   /\ S.nmsg < MaxMsg /\ NT(S) < MaxTask
@@ -493,7 +514,7 @@ Checkpoint ==
   /\ Quiet(S) /\ S.nenv > 0
   /\ EnvStep(S, <<Ev(S, [e |-> "quiesce", t |-> 0])>>, [op |-> "quiesce"])
 
-Env == \/ CallOpen \/ CallClose \/ CallReset
+Env == \/ CallOpen \/ CallClose \/ CallReset \/ CallCloseOpen
        \/ \E k \in Kinds, p \in Policies : CallSend(k, p)
        \/ Resolve(TRUE) \/ Resolve(FALSE)
        \/ \E dt \in Dts : Tick(dt)
@@ -524,11 +545,11 @@ NoWedge == (Quiet(S) /\ S.isOpen /\ S.isConn /\ S.writer # None /\ S.conn[S.writ
 
 \* open, quiet, nothing in flight => either connected or a (re)connection is on its way
 NoGiveUp == (Quiet(S) /\ S.isOpen /\ ~S.isConn
-             /\ ~\E t \in Tasks(S) : S.task[t].kind \in {"close", "open"} /\ S.task[t].pc # "done")
+             /\ ~\E t \in Tasks(S) : S.task[t].kind \in {"close", "open", "closeopen"} /\ S.task[t].pc # "done")
              => \E t \in Tasks(S) : S.task[t].kind = "connect" /\ S.task[t].pc \in {"K2wait", "Ksleep"}
 
 \* closed and quiet => nothing of the client is left behind
-ClosedIsFinal == (Quiet(S) /\ ~S.isOpen /\ ~\E t \in Tasks(S) : S.task[t].kind \in {"close", "open"} /\ S.task[t].pc # "done")
+ClosedIsFinal == (Quiet(S) /\ ~S.isOpen /\ ~\E t \in Tasks(S) : S.task[t].kind \in {"close", "open", "closeopen"} /\ S.task[t].pc # "done")
                    => /\ Up(S) = {}
                       /\ ~\E t \in Tasks(S) : S.task[t].pc \in {"K2wait", "Ksleep", "L1wait", "D0wait"}
 
